@@ -8,6 +8,9 @@ Bind:   (a) the UNMODIFIED producer/fetcher/work/fork bodies run under a coopera
             seeded schedules (uniform, feeder-starving, PCT-style priorities); every queue operation is logged as the
             spec action it must be and the log is validated by TLC; the recorded deliveries must satisfy ExactlyOnce and
             the schedule must terminate (no deadlock);
+        (a') spec -> code: complete behaviours of the specification (TLC -simulate over spec/ParallelizeSim.tla) are granted
+            operation by operation to the same unmodified bodies; the projected queue state must equal the spec state
+            after every step, the run must end where the behaviour ends, and the outcome is judged as in (a);
         (b) real multiprocessing runs of Flow(..., parallelize(...)) with random delays, in a killable process group:
             recorded deliveries judged by the same formula.
 """
@@ -143,6 +146,76 @@ def real_runs(rep, t, r):
     rep.notes['real_multiprocessing_queue_operations_validated'] = nreal_ev
 
 
+def spec_to_code(rep, t, r):
+    """spec -> code: complete behaviours of Parallelize.tla (TLC -simulate over ParallelizeSim) are granted step by step
+    to the real bodies; the projected queue state is compared with the spec state after every step"""
+    from concurrent.futures import ThreadPoolExecutor
+    wd = tlc.workdir('c18s')
+    grid = [(0, 1, (), ()), (1, 1, (1,), ()), (2, 1, (2,), ()), (3, 1, (1, 3), ()), (2, 2, (1, 2), ()), (3, 2, (2, 3), (3,)),
+            (4, 2, (1, 3), ()), (4, 3, (1, 2, 3, 4), (2,)), (3, 3, (3,), ()), (5, 2, (2, 3, 4, 5), ())]
+    if t == 'thorough':
+        grid += [(6, 3, (1, 2, 3, 4, 5, 6), (4,)), (5, 4, (1, 3, 5), ()), (8, 2, (2, 4, 6, 8), ()), (4, 1, (2, 4), (2,))]
+    num = 40 if t == 'quick' else 500
+
+    def sim(g):
+        R, N, sel, fail = g
+        cfg = tlc.write_cfg(os.path.join(wd, 's_%d_%d_%d_%d.cfg' % (R, N, len(sel), len(fail))), spec='SimSpec',
+                            constants={'R': R, 'N': N, 'Sel': tla_set(sel), 'Fail': tla_set(fail)}, invariants=['SimSafe'], constraints=['Export'])
+        return tlc.run_tlc('ParallelizeSim', cfg, workers=1, simulate='num=%d' % num, depth=1000, seed=rep.seed + R * 10 + N,
+                           allow_violation=False, timeout=3000)
+    with ThreadPoolExecutor(8) as ex:
+        sims = list(ex.map(sim, grid))
+    items = []
+    for g, res in zip(grid, sims):
+        rep.add_tlc(res, 'ParallelizeSim -simulate R=%d N=%d Sel=%s Fail=%s: %d complete behaviours as scripts' % (g[0], g[1], tla_set(g[2]), tla_set(g[3]), len(res.cases)))
+        if not res.cases:
+            raise tlc.MachineryError('ParallelizeSim produced no behaviour for %r' % (g,))
+        seen = set()
+        for c in res.cases:
+            key = json.dumps([[e['a'], e['w']] for e in c['script']])
+            if key in seen:
+                continue
+            seen.add(key)
+            items.append(dict(R=c['r'], N=c['n'], sel=list(c['sel']), fail_ids=list(c['fail']), script=c['script'], seed=len(items)))
+    traces = pmap(sched.run_script, items, chunksize=8)
+    errs = harness_errors(traces)
+    if errs:
+        raise tlc.MachineryError('harness error in scripted scheduler: ' + errs[0])
+    # the binding binds: a script with one operation removed cannot be followed
+    probe = next(it for it in items if any(e['a'] == 'FeedIn' for e in it['script']))
+    k = next(i for i, e in enumerate(probe['script']) if e['a'] == 'FeedIn')
+    broken = sched.run_script(dict(probe, script=probe['script'][:k] + probe['script'][k + 1:]))
+    if broken['followed']:
+        raise tlc.MachineryError('a script with one operation removed was accepted: the scripted scheduler does not bind')
+    rep.notes['spec_to_code_binding_selftest'] = 'a behaviour with one FeedIn step removed diverges: ' + broken['divergence']['why']
+    groups = {}
+    for it, tr in zip(items, traces):
+        groups.setdefault((it['R'], it['N'], tuple(it['sel']), tuple(it['fail_ids'])), []).append((it, tr))
+    glist = sorted(groups.items())
+    with ThreadPoolExecutor(8) as ex:
+        allverd = list(ex.map(lambda g: validate(rep, g[0][0], g[0][1], list(g[0][2]), [x[1] for x in g[1]], g[0][3]), glist))
+    ncmp = 0
+    for ((R, N, sel, fail), lst), verd in zip(glist, allverd):
+        for (it, tr), v in zip(lst, verd):
+            rep.count(1, traces=1)
+            rep.mark_distinct(['script', tr['ev']])
+            ncmp += tr['states_compared']
+            short = dict(R=R, N=N, sel=list(sel), fail_ids=list(fail), script=it['script'])
+            if not v['rec_once']:
+                rep.violation(short, dict(why='along a behaviour of the specification the implementation does not deliver exactly once / does not terminate',
+                                          outcome=tr['fin'], divergence=tr['divergence'], deadlock=tr['deadlock'], error=tr['error'],
+                                          events=tr['ev'][-12:]), category='script/R%dN%d' % (R, N))
+            elif not tr['followed']:
+                rep.model_drift('the implementation cannot follow a behaviour of Parallelize.tla (%s) although exactly-once holds on the run'
+                                % tr['divergence']['why'], dict(R=R, N=N, sel=list(sel), divergence=tr['divergence']))
+            elif v['matched'] != v['total'] or not v['inv'] or not v['end_ok'] or not v['delivered_eq']:
+                rep.model_drift('scripted run not accepted by ParallelizeTrace (matched %s/%s)' % (v['matched'], v['total']), dict(R=R, N=N, sel=list(sel)))
+    rep.notes['spec_to_code_behaviours_replayed'] = len(items)
+    rep.notes['spec_to_code_states_compared'] = ncmp
+    rep.sample(dict(spec_to_code=dict(R=items[-1]['R'], N=items[-1]['N'], sel=items[-1]['sel'],
+                                      script=[[e['a'], e['w']] for e in items[-1]['script']][:30], outcome=traces[-1]['fin'])))
+
+
 def run():
     rep = Report(PROP)
     t = rep.tier
@@ -179,6 +252,7 @@ def run():
                 rep.model_drift('schedule is not a behaviour of Parallelize.tla (matched %s/%s events) although exactly-once holds on it' % (v['matched'], v['total']), it)
     rep.sample(dict(schedule=dict(R=items[-1]['R'], N=items[-1]['N'], sel=items[-1]['sel'], strategy=items[-1]['strategy'],
                                   events=traces[-1]['ev'][:25], outcome=traces[-1]['fin'])))
+    spec_to_code(rep, t, r)
     real_runs(rep, t, r)
     rep.assumptions += ['row_func and the predicate do not raise; the upstream iterator does not fail (failures are C04)',
                         'a multiprocessing.Queue is FIFO per putting process and unordered across processes (per-process feeder buffers)',
@@ -193,9 +267,9 @@ def replay(path):
     if 'real' in c:
         print('real multiprocessing runs are not deterministic; re-run the check')
         return 0
-    tr = sched.run_schedule(c)
+    tr = sched.run_script(c) if 'script' in c else sched.run_schedule(c)
     rep = Report(PROP)
-    v = validate(rep, c['R'], c['N'], c['sel'], [tr])[0]
+    v = validate(rep, c['R'], c['N'], c['sel'], [tr], c.get('fail_ids') or ())[0]
     print(v, tr['fin'], tr['deadlock'])
     if not v['rec_once']:
         print('VIOLATION property=%s replay=%s' % (PROP, path))
